@@ -26,6 +26,9 @@ pub enum POp {
     AllocAligned { ty: u8, n: u16, payload: u8 },
     AllocTyped { ty: u8, payload: u8 },
     AllocOwned { n: u16 },
+    /// alloc_bytes of a size that cannot fit: sel 0 = u32::MAX - |d|, 1 = u32::MAX - allocated() + d (the sum passes 2^32
+    /// for d > 0), 2 = capacity() + d, 3 = remaining() + 1 + |d|; resolved when the operation starts
+    AllocHuge { sel: u8, d: i8 },
     Drop { h: u16 },
     Discard,
     CloneArena,
@@ -245,6 +248,8 @@ pub struct St {
     aba_mark: Option<String>,
     /// per thread: offset of the segment it has marked and not yet unlinked or restored
     my_mark: Vec<Option<usize>>,
+    /// the property whose check is running (predicates that do not endanger the run are only judged for their owner)
+    owner: &'static str,
 }
 
 #[derive(Clone)]
@@ -685,21 +690,37 @@ fn run_prog(sh: &Arc<Shared>, t: usize, arena: &'static Arena, prog: &[POp], clo
     for (pi, op) in prog.iter().enumerate() {
         set_op(format!("op {pi} {op:?}"));
         match op {
-            POp::AllocBytes { .. } | POp::AllocRel { .. } | POp::AllocAligned { .. } | POp::AllocTyped { .. } | POp::AllocOwned { .. } => {
-                let (r, payload, is_bytes, owned) = match op {
-                    POp::AllocBytes { n, payload } => (alloc_bytes(arena, *n as u32, false), *payload, true, false),
+            POp::AllocBytes { .. } | POp::AllocRel { .. } | POp::AllocAligned { .. } | POp::AllocTyped { .. } | POp::AllocOwned { .. } | POp::AllocHuge { .. } => {
+                // req = (kind: 0 bytes, 1 aligned, 2 typed; type index; n) - what C03 promises about the result
+                let (r, payload, is_bytes, owned, req) = match op {
+                    POp::AllocBytes { n, payload } => (alloc_bytes(arena, *n as u32, false), *payload, true, false, (0u8, 0usize, *n as u32)),
                     POp::AllocRel { num, d, payload } => {
                         let head = arena.verif_freelist(64).nodes.iter().map(|n| n.1).max().unwrap_or(64) as i64;
                         let n = (head * (*num as i64 % 9) / 8 + *d as i64).clamp(1, 4096) as u32;
-                        (alloc_bytes(arena, n, false), *payload, true, false)
+                        (alloc_bytes(arena, n, false), *payload, true, false, (0, 0, n))
                     }
-                    POp::AllocOwned { n } => (alloc_bytes(arena, *n as u32, true), 0, true, true),
-                    POp::AllocAligned { ty, n, payload } => (alloc_aligned(arena, *ty as usize % TYPES.len(), *n as u32, false), *payload, false, false),
+                    POp::AllocOwned { n } => (alloc_bytes(arena, *n as u32, true), 0, true, true, (0, 0, *n as u32)),
+                    POp::AllocHuge { sel, d } => {
+                        let (al, cp) = (arena.allocated() as i64, arena.capacity() as i64);
+                        let n = match sel % 4 {
+                            0 => u32::MAX as i64 - (*d as i64).abs(),
+                            1 => u32::MAX as i64 - al + *d as i64,
+                            2 => cp + *d as i64,
+                            _ => (cp - al) + 1 + (*d as i64).abs(),
+                        }
+                        .clamp(1, u32::MAX as i64) as u32;
+                        lock(sh).classes.insert("huge-request-under-schedule");
+                        (alloc_bytes(arena, n, false), 0, true, false, (0, 0, n))
+                    }
+                    POp::AllocAligned { ty, n, payload } => {
+                        let tix = *ty as usize % TYPES.len();
+                        (alloc_aligned(arena, tix, *n as u32, false), *payload, false, false, (1, tix, *n as u32))
+                    }
                     POp::AllocTyped { ty, payload } => {
                         let tix = *ty as usize % TYPES.len();
                         // drop types keep their value in the handle; plain types only
                         let tix = if TYPES[tix].needs_drop { 24 } else { tix };
-                        (alloc_typed(arena, tix, false), *payload, false, false)
+                        (alloc_typed(arena, tix, false), *payload, false, false, (2, tix, 0))
                     }
                     _ => unreachable!(),
                 };
@@ -710,6 +731,44 @@ fn run_prog(sh: &Arc<Shared>, t: usize, arena: &'static Arena, prog: &[POp], clo
                 };
                 check_no_orphan_mark(sh, t, false);
                 let (off, cap) = (obj.offset(), obj.capacity());
+                // C03 under a schedule: capacity and alignment of what was returned (a retry loop that reuses a
+                // value computed from a stale cursor only shows when another thread moves the cursor in between)
+                {
+                    let (kind, tix, n) = req;
+                    let ty = &TYPES[tix];
+                    let bad = match kind {
+                        0 => (cap != n as usize).then(|| ("bytes-capacity", format!("alloc_bytes({n}) returned capacity {cap}"))),
+                        1 if ty.size == 0 && (ty.align == 1 || n == 0) => (cap != n as usize).then(|| ("bytes-capacity", format!("alloc_aligned_bytes::<{}>({n}) returned capacity {cap}", ty.name))),
+                        1 => {
+                            if off % ty.align != 0 {
+                                Some(("aligned-offset", format!("alloc_aligned_bytes::<{}>({n}) offset {off} not a multiple of {}", ty.name, ty.align)))
+                            } else if cap < ty.size + n as usize {
+                                Some(("aligned-capacity", format!("alloc_aligned_bytes::<{}>({n}) capacity {cap} < {}", ty.name, ty.size + n as usize)))
+                            } else {
+                                None
+                            }
+                        }
+                        _ => {
+                            if cap != ty.size {
+                                Some(("typed-capacity", format!("alloc::<{}>() capacity {cap} != size_of {}", ty.name, ty.size)))
+                            } else if ty.size > 0 && off % ty.align != 0 {
+                                Some(("typed-offset", format!("alloc::<{}>() offset {off} not a multiple of {}", ty.name, ty.align)))
+                            } else {
+                                None
+                            }
+                        }
+                    };
+                    let mine = lock(sh).owner == "C03";
+                    if let (true, Some((sig, msg))) = (mine, bad) {
+                        let mut st = lock(sh);
+                        st.classes.insert("c03-checked-under-schedule");
+                        st.fail(viol!("C03", sig, "thread {t} {op:?}: {msg}"));
+                        sh.cv.notify_all();
+                        drop(st);
+                        std::mem::forget(obj);
+                        unwind_abort();
+                    }
+                }
                 if cap == 0 {
                     obj.detach();
                     drop(obj);
@@ -720,7 +779,7 @@ fn run_prog(sh: &Arc<Shared>, t: usize, arena: &'static Arena, prog: &[POp], clo
                 let d = st.data_offset;
                 if off < d || off + cap > st.cap {
                     let acap = st.cap;
-                    st.fail(viol!("C02", "range-out-of-arena", "thread {t} {op:?}: returned range [{off}, {}) outside the data area [{d}, {})", off + cap, acap));
+                    st.fail(viol!("C02|C04", "range-out-of-arena", "thread {t} {op:?}: returned range [{off}, {}) outside the data area [{d}, {})", off + cap, acap));
                     sh.cv.notify_all();
                     drop(st);
                     std::mem::forget(obj);
@@ -728,7 +787,7 @@ fn run_prog(sh: &Arc<Shared>, t: usize, arena: &'static Arena, prog: &[POp], clo
                 }
                 if let Some(l) = st.live.iter().find(|l| l.cap > 0 && off < l.off + l.cap && l.off < off + cap) {
                     let (lid, ltid, loff, lcap) = (l.id, l.tid, l.off, l.cap);
-                    st.fail(viol!("C02", "overlap", "thread {t} {op:?}: returned [{off}, {}) overlapping live range #{lid} [{loff}, {}) of thread {ltid}", off + cap, loff + lcap));
+                    st.fail(viol!("C02|C04", "overlap", "thread {t} {op:?}: returned [{off}, {}) overlapping live range #{lid} [{loff}, {}) of thread {ltid}", off + cap, loff + lcap));
                     sh.cv.notify_all();
                     drop(st);
                     std::mem::forget(obj);
@@ -1077,6 +1136,7 @@ fn run_case_b_inner(case: &CaseB, o: &OptsB) -> RunB {
         unmount_thread: None,
         aba_mark: None,
         my_mark: vec![None; n],
+        owner: o.owner,
     };
     let sh = Arc::new(Shared { m: Mutex::new(st), cv: Condvar::new() });
     // main's existing writes (pre-history payloads) happen-before the threads: spawn edge
